@@ -203,3 +203,18 @@ pub assume_specification [usize::pow](base: usize, exp: u32) -> (r: usize)
     requires base == 2 ==> exp < 64, base != 2 ==> false,
     ensures base == 2 ==> r == (1usize << (exp as usize)),
 ;
+
+/// `Vec<T>::try_into::<[T; N]>()`: succeeds exactly when the length is N and then keeps the elements
+#[verifier::external_body]
+pub fn verif_try_into<T, const N: usize>(v: Vec<T>) -> (r: Result<[T; N], Vec<T>>)
+    ensures v.len() == N ==> r is Ok && r->Ok_0@ == v@, v.len() != N ==> r is Err,
+{ v.try_into() }
+#[verifier::external_type_specification]
+#[verifier::external_body]
+#[verifier::reject_recursive_types(F)]
+pub struct ExRepeatWith<F>(::core::iter::RepeatWith<F>);
+/// `repeat_with(f).take(n)`: n calls of f; f may mutate captured state, so only the number of items is specified (A-LIB-ITER)
+#[verifier::external_body]
+pub fn verif_repeat_take<U, F: FnMut() -> U>(f: F, n: usize) -> (r: ::core::iter::Take<::core::iter::RepeatWith<F>>)
+    ensures r.obeys_prophetic_iter_laws(), r.remaining().len() == n,
+{ ::core::iter::repeat_with(f).take(n) }
